@@ -40,17 +40,25 @@ def gen_struct(rng, depth=0, big=False):
     shape = rng.choice([[], [], [1], [2], [3], [0], [2, 2], [1, 3], [2, 0]] + ([[4, 3], [7]] if big else []))
     return ['a', shape]
   n = rng.randrange(1, 4)
-  if r < 0.75:
+  if r < 0.7:
     keys = rng.sample(['w', 'b', 'k', 'a0', 'z', 'm'], n)
-    return ['d', {k: gen_struct(rng, depth + 1, big) for k in keys}]
-  return [rng.choice(['l', 't']), [gen_struct(rng, depth + 1, big) for _ in range(n)]]
+    return [rng.choice(['d', 'd', 'd', 'o']), {k: gen_struct(rng, depth + 1, big) for k in keys}]
+  kind = rng.choice(['l', 't', 'n', 'c', 'l', 't'])
+  if kind == 'c':
+    n = 2
+  subs = [gen_struct(rng, depth + 1, big) for _ in range(n)]
+  if kind in ('l', 't', 'n') and rng.random() < 0.3:
+    subs[rng.randrange(len(subs))] = ['N']                     # a None sub-tree
+  return [kind, subs]
 
 
 def leaf_shapes(st):
   """Shapes in jax flattening order (dict keys sorted)."""
   if st[0] == 'a':
     return [st[1]]
-  if st[0] == 'd':
+  if st[0] == 'N':
+    return []
+  if st[0] in ('d', 'o'):
     return [s for k in sorted(st[1]) for s in leaf_shapes(st[1][k])]
   return [s for sub in st[1] for s in leaf_shapes(sub)]
 
@@ -73,13 +81,45 @@ def build(st, flat, mk, pos=None, cplx=False):
     vals = [_num(v) for v in flat[pos[0]:pos[0] + n]]
     pos[0] += n
     return mk(np.array(vals, dtype=np.float64).reshape(st[1]))
+  if st[0] == 'N':
+    return None
+  if st[0] == 'o':                 # OrderedDict: jax flattens it in INSERTION order, so insert in the order of the values
+    import collections
+    return collections.OrderedDict((k, build(st[1][k], flat, mk, pos, cplx)) for k in sorted(st[1]))
   if st[0] == 'd':
     items = [(k, build(st[1][k], flat, mk, pos, cplx)) for k in sorted(st[1])]     # values follow the flattening order
     _INS[0] += 1
     r = _INS[0] % max(len(items), 1)
     return dict(items[r:][::-1] + items[:r])                                        # ... the insertion order does not
   subs = [build(s, flat, mk, pos, cplx) for s in st[1]]
+  if st[0] == 'n':
+    return _namedtuple(len(subs))(*subs)
+  if st[0] == 'c':
+    return _dataclass()(*subs)
   return subs if st[0] == 'l' else tuple(subs)
+
+
+_CLS = {}
+
+
+def _namedtuple(n):
+  import collections
+  if ('nt', n) not in _CLS:
+    _CLS[('nt', n)] = collections.namedtuple('NT%d' % n, ['f%d' % i for i in range(n)])
+  return _CLS[('nt', n)]
+
+
+def _dataclass():
+  if 'dc' not in _CLS:
+    import fedjax
+    import typing
+
+    @fedjax.dataclass
+    class Pair:
+      x: typing.Any
+      y: typing.Any
+    _CLS['dc'] = Pair
+  return _CLS['dc']
 
 
 _INS = [0]
@@ -147,7 +187,7 @@ def generate(tier, rng):
            'wtype': rng.choice(['float', 'float', 'int', 'np32', 'jnp', 'jnp_weak', 'jnp0d', 'np64', 'np0d']),
            'leaf': rng.choice(['jax', 'jax', 'jax', 'np']), 'tol': 0.0 if exact else TOL, 'dtype': dtype,
            'idtype': rng.choice(['bytes', 'str', 'int']), 'kw': rng.random() < 0.2, 'fresh': i % 4 == 0, 'reinit': i % 5 == 0,
-           'ctx': 'nojit' if i % 11 == 5 else 'eager'}
+           'ctx': 'nojit' if i % 11 == 5 else 'eager', 'layout': rng.choice(LAYOUTS), 'twice': i % 3 == 0}
   for i in range(n_sum):
     st = rng.choice(structs)
     n = rng.choice([1, 1, 2, 3, 4, 6])
@@ -162,7 +202,7 @@ def generate(tier, rng):
     yield {'kind': 'sum', 'struct': st, 'trees': trees, 'weights': [], 'perm': perm,
            'input': 'list' if ctx == 'jit' else rng.choice(INPUT_FORMS), 'wtype': 'float',
            'leaf': rng.choice(['jax', 'jax', 'np']), 'tol': 0.0 if exact else TOL, 'dtype': dtype,
-           'kw': rng.random() < 0.2, 'ctx': ctx}
+           'kw': rng.random() < 0.2, 'ctx': ctx, 'layout': rng.choice(LAYOUTS), 'twice': i % 3 == 0}
   trip = [(3, 4, 5), (5, 12, 13), (8, 15, 17), (7, 24, 25), (1, 0, 1), (0, 0, 0), (2, 3, 6, 7), (1, 4, 8, 9), (2, 6, 9, 11),
           (1, 2, 2, 3), (4, 4, 7, 9), (2, 10, 11, 15), (0, 0, 0, 0), (1, 1, 1, 1, 2), (2, 4, 5, 6, 9)]
   for i in range(n_clip):
@@ -195,7 +235,7 @@ def generate(tier, rng):
     yield {'kind': 'clip', 'struct': st, 'trees': [flat], 'weights': [], 'perm': [0], 'c': float(c), 'norm': float(norm),
            'input': 'list', 'wtype': rng.choice(['float', 'int', 'jnp', 'jnp_weak', 'np32', 'np0d']) if float(c).is_integer() else rng.choice(['float', 'np32', 'jnp_weak']),
            'leaf': rng.choice(['jax', 'jax', 'np']), 'tol': 0.0 if exact else TOL,
-           'kw': rng.random() < 0.2, 'ctx': ['eager', 'eager', 'nojit', 'jit'][i % 4]}
+           'kw': rng.random() < 0.2, 'ctx': ['eager', 'eager', 'nojit', 'jit'][i % 4], 'layout': rng.choice(LAYOUTS), 'twice': i % 3 == 0}
   # ---- falsy-but-valid boundaries, every tier: first weight exactly 1 (n = 1 and n >= 2), weights 0 and 1 only, total
   # weight strictly between 0 and 1, a single zero-weight client, empty trees, the empty cohort, ids 0 / b'' / ''
   small = [['a', [2]], ['d', {'w': ['a', [2, 2]], 'b': ['a', []]}], ['d', {}], ['l', []], ['l', [['a', [0]], ['d', {}]]]]
@@ -214,7 +254,8 @@ def generate(tier, rng):
                'perm': list(reversed(range(len(ws)))), 'input': form,
                'wtype': ['float', 'int', 'jnp', 'jnp_weak', 'np32'][j % 5], 'leaf': 'jax' if j % 4 else 'np',
                'tol': 0.0 if exact else TOL, 'dtype': 'float32', 'idtype': ['int', 'bytes', 'str'][j % 3],
-               'kw': j % 7 == 0, 'fresh': True, 'reinit': j % 3 == 0, 'ctx': 'nojit' if j % 13 == 0 else 'eager'}
+               'kw': j % 7 == 0, 'fresh': True, 'reinit': j % 3 == 0, 'ctx': 'nojit' if j % 13 == 0 else 'eager',
+               'layout': LAYOUTS[j % len(LAYOUTS)], 'twice': True}
   for n in (0, 1, 1, 2):
     for form in ('list', 'gen', 'tuple', 'dictvalues'):
       j += 1
@@ -255,6 +296,38 @@ def generate(tier, rng):
              'weights': ws, 'perm': list(reversed(range(n))), 'input': rng.choice(['list', 'gen']), 'wtype': 'float',
              'leaf': 'jax', 'tol': 0.0, 'dtype': 'float32', 'idtype': 'sentinel', 'kw': False, 'fresh': False, 'reinit': False,
              'ctx': 'eager', 'sweep': 'scale'}
+  # ---- offset / ill-conditioned data, exact (integers below 2^24, power-of-two totals): mean >> spread with both signs,
+  # all trees equal, a constant plus one outlier, alternating signs that cancel
+  pats = ['offset', 'offset-neg', 'all-equal', 'outlier', 'alternating']
+  for i in range({'quick': 30, 'thorough': 300, 'search': 200}.get(tier, 30)):
+    pat = pats[i % len(pats)]
+    st = rng.choice(small[:2] + [['a', [3]], ['t', [['a', [2]], ['N'], ['n', [['a', []], ['a', [1]]]]]]])
+    k = size(st)
+    n = rng.choice([2, 3, 4])
+    off = float(rng.choice([100, 1000, 10 ** 4, 10 ** 5, 10 ** 6, 2 ** 21]))
+    if pat == 'offset':
+      trees = [[off + rng.randrange(-2, 3) for _ in range(k)] for _ in range(n)]
+    elif pat == 'offset-neg':
+      trees = [[-off + rng.randrange(-2, 3) for _ in range(k)] for _ in range(n)]
+    elif pat == 'all-equal':
+      t0 = [off + rng.randrange(-2, 3) for _ in range(k)]
+      trees = [list(t0) for _ in range(n)]
+    elif pat == 'outlier':
+      trees = [[1.0] * k for _ in range(n)]
+      trees[rng.randrange(n)] = [off] * k
+    else:
+      trees = [[(off + j) * (1 if c % 2 == 0 else -1) for j in range(k)] for c in range(n)]
+    kind = ['mean', 'agg', 'sum'][i % 3]
+    # integer weights with a power-of-two total: every partial sum is an integer below 2^24, the quotient a multiple of 1/4
+    ws = [] if kind == 'sum' else ([1.0] * n if n in (2, 4) else [1.0, 2.0, 1.0])
+    if ws and rng.random() < 0.5:
+      rng.shuffle(ws)
+    perm = list(range(n))
+    rng.shuffle(perm)
+    yield {'kind': kind, 'struct': st, 'trees': trees, 'weights': ws, 'perm': perm, 'input': rng.choice(['list', 'gen', 'iterlist']),
+           'wtype': rng.choice(['float', 'int', 'jnp']), 'leaf': rng.choice(['jax', 'np']), 'tol': 0.0, 'dtype': 'float32',
+           'idtype': 'bytes', 'kw': False, 'fresh': False, 'reinit': False, 'ctx': 'eager', 'layout': rng.choice(LAYOUTS),
+           'twice': True, 'pattern': pat}
   # ---- non-finite values on REAL positions (positive-weight clients): the answer must be non-finite exactly there
   for i in range({'quick': 16, 'thorough': 120, 'search': 100}.get(tier, 16)):
     st = rng.choice(small[:2] + [['a', [4]]])
@@ -422,7 +495,7 @@ def _wrap(items, how):
   if how == 'map':
     return map(lambda x: x, items), None
   if how == 'zip':                               # a zip object over the columns (only for tuple elements)
-    if items and isinstance(items[0], tuple):
+    if items and type(items[0]) is tuple:
       return zip(*[[x[j] for x in items] for j in range(len(items[0]))]), None
     return (x for (x,) in zip(items)), None
   if how == 'dictvalues':
@@ -486,6 +559,38 @@ def _flat(t):
 def _np_dtype(name):
   import jax.numpy as jnp
   return np.dtype(jnp.bfloat16) if name == 'bfloat16' else np.dtype(name)
+
+
+LAYOUTS = ['C', 'F', 'T', 'step2', 'neg', 'col', 'ro']
+
+
+def _layout(a, how):
+  """The same values in another memory layout (numpy leaves): Fortran order, transposed view, every-other-row slice
+  of a larger array, negative stride, non-contiguous column slice of a wider array, read-only.  (Byte-swapped dtypes
+  are rejected by jax itself with a TypeError: outside the API.)"""
+  if how == 'C' or a.ndim == 0 or a.size == 0:
+    if how == 'ro':
+      a = a.copy()
+      a.setflags(write=False)
+    return a
+  if how == 'F':
+    return np.asfortranarray(a)
+  if how == 'T':
+    return np.ascontiguousarray(a.T).T
+  if how == 'step2':
+    big = np.full((2 * a.shape[0],) + a.shape[1:], 7, dtype=a.dtype)
+    big[::2] = a
+    return big[::2]
+  if how == 'neg':
+    return a[::-1].copy()[::-1]
+  if how == 'col':
+    wide = np.full(a.shape[:-1] + (a.shape[-1] + 2,), 9, dtype=a.dtype)
+    wide[..., 1:-1] = a
+    return wide[..., 1:-1]
+  if how == 'ro':
+    a = a.copy()
+    a.setflags(write=False)
+  return a
 
 
 def _container_snapshot(arg, trees):
@@ -581,7 +686,7 @@ def _call(case, order):
   dname = case.get('dtype', 'float32')
   cplx = dname == 'complex64'
   dt = _np_dtype(dname)
-  mk = (lambda a: jnp.asarray(a, dtype=dt)) if case['leaf'] == 'jax' else (lambda a: np.asarray(a).astype(dt))
+  mk = (lambda a: jnp.asarray(a, dtype=dt)) if case['leaf'] == 'jax' else (lambda a: _layout(np.asarray(a).astype(dt), case.get('layout', 'C')))
   # sums keep the leaf dtype; leaf * weight follows jax's promotion: a floating / complex leaf keeps its dtype under a
   # python-scalar (or weakly typed) weight, everything else becomes float32
   floating = dname in ('float16', 'bfloat16', 'float32', 'complex64')
@@ -693,11 +798,15 @@ def run(case):
   try:
     first = _call(case, list(range(len(case['trees']))))
     second = _call(case, case['perm']) if case['kind'] in ('mean', 'agg', 'sum') and len(case['trees']) > 1 else None
+    again = _call(case, list(range(len(case['trees'])))) if case.get('twice') else None
   except (ZeroDivisionError, TypeError, ValueError, AttributeError, RuntimeError, FloatingPointError) as ex:
     return {'error': type(ex).__name__}
   enc = lambda xs: None if xs is None else [v if math.isfinite(v) else None for v in xs]
   return {'error': None, 'res': enc(first['res']), 'struct_ok': first['struct_ok'], 'inputs': first['inputs'],
           'one_shot': first['one_shot'], 'values': first.get('values'),
+          'again_same': None if again is None else (again['res'] == first['res'] or (again['res'] is not None and first['res'] is not None and
+                                                       all((a == b) or (a != a and b != b) for a, b in zip(again['res'], first['res'])))),
+          'inputs_again': [] if again is None else again['inputs'],
           'res_perm': None if second is None else enc(second['res']),
           'inputs_perm': [] if second is None else second['inputs']}
 
@@ -784,7 +893,9 @@ def _oracle(case, obs):
     return out
   if not obs['struct_ok']:
     out.append(('structure', 'result does not have the structure / leaf shapes of the inputs (dtype: the inputs\' for sums; leaf-times-weight promotion for means / clipping)'))
-  for p in sorted(set(obs['inputs'] + obs['inputs_perm'])):
+  if obs.get('again_same') is False:
+    out.append(('second-call-differs', f'{kind}: an identical second call returned a different result'))
+  for p in sorted(set(obs['inputs'] + obs['inputs_perm'] + obs.get('inputs_again', []))):
     if p in special:
       out.append(special[p])
     else:
@@ -925,6 +1036,8 @@ def describe(case, obs):
   if case['kind'] == 'flagbatch':
     return {'kind': 'flagbatch', 'flag': case['flag'], 'sub_cases': len(case['cases'])}
   d = {'kind': case['kind'], 'clients': len(case['trees']), 'input': case['input'], 'exact': case['tol'] == 0,
+       'layout': case.get('layout', 'C') if case['leaf'] == 'np' else 'jax', 'pattern': case.get('pattern', 'none'),
+       'second_call': bool(case.get('twice')),
        'sweep': case.get('sweep', 'none'), 'nonfinite_input': bool(case.get('nonfinite')),
        # hypotheses of the value theorems: finite leaves, weights >= 0 (clip: bound >= 0; n*n = sumsq is checked in Coq)
        'hyp_finite_inputs': not case.get('nonfinite'), 'hyp_weights_nonneg': all(w >= 0 for w in case['weights']),
